@@ -107,6 +107,32 @@ def _drive(args):
         if tid % 20 == 10:
             enc, blocked, n = 'cp500', False, 4
             rows = [{'MTI': '1240', 'DE2': '5%015d' % i, 'PDS0165': 'M' + ' ' * 646 + 'x'} for i in range(4)]
+        if tid % 8 == 7:
+            # an otherwise plain table (no cell needs quoting: letters, digits, blanks) - the export-like cells added
+            # below are then the only quoted text in the whole file
+            rows = []
+            for i in range(n):
+                row = {'MTI': '1240', 'DE2': '5%015d' % r.randrange(10 ** 15), 'DE4': str(r.randrange(1, 10 ** 6)),
+                       'DE12': '2024-03-%02d 10:%02d:12' % (1 + i % 28, i % 60), 'DE38': 'A%05d' % (i % 100000),
+                       'DE42': ('SHOP %d MAIN ST' % i).ljust(15)[:15]}
+                if i % 2 == 0:
+                    row[('PDS0158', 'PDS0165')[(tid // 8) % 2]] = 'MCC %d' % (5000 + i)
+                rows.append(row)
+        if tid % 4 == 3 and tid % 20 != 10:
+            # cells that themselves look like a line of another export: a quoted word between semicolons, bars or tabs,
+            # in the last (and in a middle) column of the table
+            used = [c for c in cols if any(c in row for row in rows)]
+            pds = [c for c in used if c.startswith('PDS')]
+            inner = ('MCC;"5411";1', 'a|"b"|c', 'x\t"y"\tz', ";'q';", '1;"2";3;"4";5')[(tid // 4) % 5]
+            if pds and used[-1] == pds[-1]:
+                for row in rows[:2]:
+                    row.pop('DE48', None)            # (a supplied DE48 would be replaced by the packed PDS cells)
+                    row[pds[-1]] = inner
+                    row[pds[0]] = inner
+            else:
+                for row in rows[:2]:
+                    row.pop('DE48', None)
+                    row['PDS0165'] = inner
         text = to_csv(rows, cols)
         res = {'tid': tid, 'enc': enc, 'blocked': blocked, 'kind': 'ok', 'rin': [prow(x) for x in rows], 'rout': [],
                '_desc': '%d rows, %s, %s%s' % (n, enc, '1014' if blocked else 'vbs', ', via cli_run on real files' if via_cli else ''),
